@@ -248,6 +248,42 @@ C22Step(m, e) ==
 \* Locally recognisable deviation events *taint* the execution; the taint appears in the signature of a
 \* rejection so that a known finding is matched only through the defect it names.
 Code == INSTANCE CodeRx
+
+SS == INSTANCE SessionStates
+\* ---- conformance of every recorded call with the session state machine (SessionStates.tla): a label, never a verdict ----
+RoleOf(m, e) == IF Get(m.cfg, "role", "ini") = "pair" THEN (IF Get(e, "w", "a") = "a" THEN "ini" ELSE "acc") ELSE Get(m.cfg, "role", "ini")
+MeOf(m, e) == IF Get(m.cfg, "role", "ini") = "pair" THEN (IF Get(e, "w", "a") = "a" THEN <<"INI", "ACC">> ELSE <<"ACC", "INI">>)
+              ELSE <<Get(m.cfg, "sender", ""), Get(m.cfg, "target", "")>>
+AbstractRecv(m, e) ==
+    LET i == e.in[1]
+        role == RoleOf(m, e)
+        kind == IF ~i.valid THEN "bad" ELSE IF i.type \in {"A", "0", "1", "2", "3", "4", "5"} THEN i.type ELSE "app"
+        ref == IF kind = "4" THEN i.newseq ELSE i.seq
+        rel == IF ref > e.pre.nr THEN (IF kind = "4" THEN "eq" ELSE "hi") ELSE IF ref < e.pre.nr THEN "lo" ELSE "eq"
+        clients == Get(m.cfg, "clients", <<>>)
+    IN [op |-> "Recv", role |-> role, kind |-> kind, seqrel |-> rel, dup |-> i.possdup,
+        ids |-> IF kind = "A" /\ role = "acc" THEN i.tci = MeOf(m, e)[1] ELSE (i.sci = MeOf(m, e)[2] /\ i.tci = MeOf(m, e)[1]),
+        late |-> i.has_orig /\ i.orig > i.sending,
+        persist |-> Get(m.cfg, "persist", "none") # "none", ignoreGap |-> Get(m.cfg, "ignore_logon_gap", FALSE),
+        enforce |-> Get(m.cfg, "enforce", TRUE),
+        extra |-> IF kind = "2" /\ (i.begin = 0 \/ (i.end # 0 /\ i.begin > i.end)) THEN "badrange"
+                  ELSE IF kind = "A" /\ role = "acc" /\ clients # <<>> /\ ~\E k \in DOMAIN clients : clients[k] = i.sci THEN "refused"
+                  ELSE ""]
+StateNext(m, e) ==
+    LET s == e.pre.st IN
+    CASE e.e \in {"Start", "Reconnect"} -> SS!Next(s, [op |-> "Start", role |-> RoleOf(m, e)])
+      [] e.e = "Restart" -> SS!Next(s, [op |-> "Restart"])
+      [] e.e \in {"Send", "SendBatch", "SendAdmin", "SendPar"} -> SS!Next(s, [op |-> "Send"])
+      [] e.e \in {"Drop", "PeerClose"} -> SS!Next(s, [op |-> "Drop"])
+      \* whether the silence limit has passed is the supervision clause's business (C22): both cases are admitted here
+      [] e.e = "Tick" -> IF e.pre.shutdown THEN {s} ELSE SS!Next(s, [op |-> "Tick", silent |-> TRUE]) \cup SS!Next(s, [op |-> "Tick", silent |-> FALSE])
+      [] e.e = "Recv" /\ e.in # <<>> -> SS!Next(s, AbstractRecv(m, e))
+      [] OTHER -> SS!States
+StateLabel(m, e) ==
+    IF ~(Has(e, "pre") /\ Has(e, "post") /\ Has(e.pre, "st") /\ Has(e.post, "st")) THEN ""
+    ELSE IF e.post.st \in StateNext(m, e) THEN "state_machine:step_conforms"
+    ELSE "state_machine:unexplained:" \o e.e \o ":" \o (IF e.e = "Recv" /\ e.in # <<>> THEN AbstractRecv(m, e).kind \o ":" \o AbstractRecv(m, e).seqrel ELSE "")
+         \o ":" \o ToString(e.pre.st) \o "->" \o ToString(e.post.st)
 \* is this recorded receive step what the code model (ideal receive design + recorded findings) predicts?
 StepExplained(e, acceptor, ignoreGap) ==
     IF ~(e.e = "Recv" /\ e.in # <<>> /\ e.in[1].valid /\ ~e.pre.shutdown) THEN TRUE
